@@ -124,13 +124,34 @@ def build_constraint(values: dict, form="scalar", masks=None):
         # array-valued entry at the static path (optionally one vector-flag Mask): C["a","x"]
         groups = {}
         rest = []
+        groups2 = {}
         for p, v in items:
             ipos = [i for i, c in enumerate(p) if not isinstance(c, str)]
+            if len(ipos) == 2:
+                # two nested vector combinators: one [N, M, ...] entry (and one [N, M] flag array)
+                key = tuple(c for c in p if isinstance(c, str))
+                groups2.setdefault(key, {})[(p[ipos[0]], p[ipos[1]])] = (p, v)
+                continue
             if len(ipos) != 1:
                 rest.append((p, v))
                 continue
             key = (p[: ipos[0]], p[ipos[0] + 1 :])
             groups.setdefault(key, {})[p[ipos[0]]] = (p, v)
+        for spath, d in groups2.items():
+            n = max(i for i, _ in d) + 1
+            m = max(j for _, j in d) + 1
+            shapes = {np.asarray(v).shape for _, v in d.values()}
+            if len(d) != n * m or len(shapes) != 1 or any(q[: len(spath)] == spath and q != spath or spath[: len(q)] == q and q != spath for q in groups2 if q != spath):
+                rest.extend(d.values())
+                continue
+            vals = _real_value(np.stack([np.stack([np.asarray(d[(i, j)][1]) for j in range(m)]) for i in range(n)]))
+            if any(d[k][0] in masks for k in d):
+                flags = jnp.asarray([[bool(np.asarray(_flagval(masks.get(d[(i, j)][0], True)))) for j in range(m)] for i in range(n)])
+                vals = Mask(vals, flags)
+            b = C
+            for c in spath:
+                b = b[c]
+            chm = chm | (b.set(vals) if spath else ChoiceMap.choice(vals))
         for (pre, post), d in groups.items():
             n = max(d) + 1
             shapes = {np.asarray(v).shape for _, v in d.values()}
